@@ -237,8 +237,71 @@ def _use_mutant_binaries():
     lib.harness_build = hb
 
 
+FAST = {"on": False}
+_orig_gen_and_run = treecommon.gen_and_run
+
+
+def _gen_and_run(ctx, avh, avm, seed, tier, enable, nscripts, tag, **kw):
+    """when the pre-flight already found a call that never returns, the generic streams (3 s watchdog per script, the hung
+    threads keep spinning) are cut down: the run ends in VIOLATION anyway, this only bounds its duration"""
+    if FAST["on"]:
+        nscripts = min(nscripts, 64)
+        tag = tag + "-reduced"
+        if not any("generic streams reduced" in str(n) for n in ctx.notes):
+            ctx.notes.append("generic streams reduced to %d scripts: the pre-flight fuzzer found a hang" % nscripts)
+    return _orig_gen_and_run(ctx, avh, avm, seed, tier, enable, nscripts, tag, **kw)
+
+
+treecommon.gen_and_run = _gen_and_run
+
+
+def preflight(tier, seed):
+    """a few hundred fuzzer cases before anything else; returns the unknown hang failures"""
+    import xmlcommon
+    ctx0 = lib.Ctx(PID + "-preflight", tier, seed)
+    try:
+        xmlcommon.translate_all(ctx0)
+        avh = lib.harness_build(ctx0)
+        if not avh:
+            return []
+        os.makedirs(PW, exist_ok=True)
+        known = [e for e in lib.load_known(PID) if e.get("match", {}).get("stream") == "panics" and e.get("status") == "known"]
+
+        def one(i):
+            return lib.run([avh, "panics", "fuzz", DUMP, str(seed * 1000 + 500 + i), "quick", os.path.join(PW, "pre%d" % i)], cwd=PW,
+                           timeout=600, env={"AVH_PANICS_CASES": "40"})
+
+        with cf.ThreadPoolExecutor(max_workers=4) as ex:
+            res = list(ex.map(one, range(4)))
+        fails = [parse_fail(l) for rc, out, _ in res for l in out.split("\n") if l.startswith("FAIL C12 ")]
+        return [f for f in fails if f.get("kind") == "hang" and not any(panics_known_match(k, f) for k in known)]
+    except Exception as ex:  # the pre-flight only steers the time budget
+        print("[check C12] preflight skipped: %r" % ex)
+        return []
+    finally:
+        p = os.path.join(lib.EVID, "%s-preflight.json" % PID)
+        if os.path.exists(p):
+            os.remove(p)
+
+
 def run(tier, seed):
     _use_mutant_binaries()
+    hangs = preflight(tier, seed)
+    if hangs:
+        FAST["on"] = True
+        print("[check C12] pre-flight: %d hanging call(s), e.g. %s" % (len(hangs), hangs[0]["raw"][:200]), flush=True)
+        # report the failing input NOW: the generic streams that follow replay hanging scripts for a long time
+        f = hangs[0]
+        sp = f.get("script", "")
+        if os.path.exists(sp):
+            lines = [l for l in open(sp).read().split("\n") if l]
+            path = os.path.join(lib.REPLAYS, "%s-preflight0.json" % PID)
+            os.makedirs(lib.REPLAYS, exist_ok=True)
+            json.dump({"property": PID, "kind": "failing-history", "oracle_line": f["raw"], "script": lines,
+                       "what": "a public call that never returns (3 s watchdog) in single-threaded use",
+                       "how_to_replay": "save `script` (one line each) to f.txt; harness/target/debug/avh panics replay work/dump f.txt -v"},
+                      open(path, "w"), indent=1, sort_keys=True)
+            print("VIOLATION property=%s replay=%s" % (PID, path), flush=True)
     return treecommon.run_tree_property(
         PID, tier, seed, "Properties/C12.v", enable="serialize", extra_check=extra,
         rule_extra="C12 adds: (1) lock half = Coq verdict self_ok/balanced on hook traces (locks_common.lock_half); (2) avh panics fuzz: "
